@@ -112,7 +112,10 @@ func c12GenCase(r *vfRand, adv bool) *c01In {
 		// variants sharing host, method and path (= the cache key) or colliding with it
 		for v := r.Intn(3); v > 0; v-- {
 			c := q
-			switch r.Intn(6) {
+			switch r.Intn(7) {
+			case 6: // same key, other body size (around the limits in force)
+				c.Body = r.PickInt(0, 1, 2, 5, 9, 17, 33, 40)
+				c.Chunked = r.Bool()
 			case 5: // same decoded path, other wire encoding (plain <-> percent-encoded)
 				if q.RawPath != "" {
 					c.RawPath = ""
